@@ -68,7 +68,9 @@ isal_sm3_ctx_mgr_submit(ISAL_SM3_HASH_CTX_MGR *mgr, ISAL_SM3_HASH_CTX *ctx_in,
         *ctx_out = cp;
 
 #ifdef SAFE_PARAM
-        if (cp != NULL && cp->error != ISAL_HASH_CTX_ERROR_NONE) {
+        /* Only a submit that was rejected hands its own context straight back with an error;
+         * a context completed on behalf of an earlier submit may still carry a stale one. */
+        if (cp == ctx_in && cp->error != ISAL_HASH_CTX_ERROR_NONE) {
                 if (cp->error == ISAL_HASH_CTX_ERROR_INVALID_FLAGS)
                         return ISAL_CRYPTO_ERR_INVALID_FLAGS;
                 if (cp->error == ISAL_HASH_CTX_ERROR_ALREADY_PROCESSING)
